@@ -242,3 +242,102 @@ func VerifC07_T2(v *VerifV) {
 		v.Cover("branching")
 	}
 }
+
+// ---- T3: Merkle proofs ----------------------------------------------------------------------------
+
+// proof store: the nodes Prove emits, keyed by hash
+type verifProofDB struct {
+	keys [][]byte
+	vals [][]byte
+}
+
+func (d *verifProofDB) Put(k, val []byte) error {
+	d.keys = append(d.keys, append([]byte(nil), k...))
+	d.vals = append(d.vals, append([]byte(nil), val...))
+	return nil
+}
+func (d *verifProofDB) Delete([]byte) error { return nil }
+func (d *verifProofDB) Has(k []byte) (bool, error) {
+	val, _ := d.Get(k)
+	return val != nil, nil
+}
+func (d *verifProofDB) Get(k []byte) ([]byte, error) {
+	for i := range d.keys {
+		if len(d.keys[i]) == len(k) {
+			var diff byte
+			for j := range k {
+				diff |= d.keys[i][j] ^ k[j]
+			}
+			if diff == 0 {
+				return d.vals[i], nil
+			}
+		}
+	}
+	return nil, nil
+}
+
+// VerifC07_T3: for a trie built by N updates (values of 1 / 33 symbolic bytes, so that nodes are
+// both embedded and hashed), the proof Prove emits for any key of the universe verifies against
+// the root to exactly the stored value (present) or to "absent"; and a proof in which one byte of
+// one node was altered (the verifier indexes received nodes by their own hash) never verifies to
+// a different value.
+func VerifC07_T3(v *VerifV) {
+	verifV = v
+	NK, N := v.Param("NK"), v.Param("N")
+	lens := []int{1, 33}
+	t := verifNewTrie()
+	ref := make([][]byte, NK)
+	for i := 0; i < N; i++ {
+		k := v.Choice("key", NK)
+		vl := lens[v.Choice("value-len", len(lens))]
+		val := v.Bytes("value", vl)
+		v.Assume(val[0] != 0 || vl > 1)
+		v.Assert(t.Update(verifKeys[k], val) == nil, "C07.update-error")
+		ref[k] = val
+	}
+	root := t.Hash()
+	q := v.Choice("query", NK)
+	db := &verifProofDB{}
+	v.Assert(t.Prove(verifKeys[q], 0, db) == nil, "C07.proof.prove-error")
+	tamper := v.Bool("tamper")
+	if tamper {
+		if len(db.vals) == 0 {
+			return
+		}
+		i := v.Choice("node", len(db.vals))
+		pos := v.Choice("byte", 2)
+		idx := []int{len(db.vals[i]) / 2, len(db.vals[i]) - 1}[pos]
+		nb := v.U8("new-byte")
+		v.Assume(nb != db.vals[i][idx])
+		db.vals[i][idx] = nb
+		// the verifier indexes the nodes it received by their own hash
+		db.keys[i] = verifHash(db.vals[i])
+		v.Cover("tampered")
+	}
+	got, err := VerifyProof(root, verifKeys[q], db)
+	if !tamper {
+		v.Assert(err == nil, "C07.proof.genuine-proof-rejected")
+		v.Assert(len(got) == len(ref[q]), "C07.proof.proves-other-value")
+		if len(got) == len(ref[q]) {
+			for x := range got {
+				v.Assert(got[x] == ref[q][x], "C07.proof.proves-other-value")
+			}
+		}
+		if ref[q] == nil {
+			v.Cover("absence-proved")
+		} else {
+			v.Cover("presence-proved")
+		}
+		return
+	}
+	// tampered: either rejected, or the same answer - never another value
+	if err == nil {
+		same := len(got) == len(ref[q])
+		if same {
+			for x := range got {
+				v.Assert(got[x] == ref[q][x], "C07.proof.tampered-proof-proves-other-value")
+			}
+		}
+		v.Assert(same, "C07.proof.tampered-proof-proves-other-value")
+	}
+}
